@@ -320,6 +320,10 @@ class JsonSchemaGenerator:
             if parser.output_options:
                 options = parser.output_options
 
+        if self.mode and not options.mode:
+            # the mode asked from the generator applies to a class that does not fix a mode itself
+            options = options & self.options
+
         for name, field in parser.fields.items():
             value = self.generate_for_field(field, options=options)
             if value is None:
